@@ -388,6 +388,18 @@ def run(ctx, res):
         res.count("cosmo_additive")
         if f:
             res.violation("CosmoLikelihood.likelihood:terms-not-additive", f, {"cosmo_additive": True, "t": t, "seed": cseed})
+    for t in range(ctx.n(6, 40)):
+        vseed = rng.randrange(2 ** 31)
+        try:
+            f = vector_path_oracle(vseed)
+        except Exception as e:  # noqa
+            res.notes.append("vector-path check failed to run: %r" % (e,))
+            res.count("vector_path_failed_to_run")
+            continue
+        res.evaluations += 1
+        res.count("vector_path")
+        if f:
+            res.violation("CosmoLikelihood.likelihood:vector-path-not-sum-of-lenses", f, {"vector_path": True, "seed": vseed})
     if ctx.search_mode:
         return
     outs = run_driver(lines)
@@ -466,9 +478,60 @@ def cosmo_additive(rng):
     return None
 
 
+def vector_path_oracle(seed):
+    """the sample evaluated through the SAMPLING VECTOR (CosmoLikelihood.likelihood(args)) equals the sum of its lenses, each
+    evaluated alone with the hyper-parameters that the vector encodes BY NAME — in particular every lens with the
+    line-of-sight population it is assigned to (>= 2 populations with different parameters)"""
+    import random
+    import warnings
+    from hierarc.Likelihood.cosmo_likelihood import CosmoLikelihood
+    from hierarc.Likelihood.hierarchy_likelihood import LensLikelihood
+    from astropy.cosmology import FlatLambdaCDM
+    rng = random.Random(seed)
+    npop = rng.choice([2, 3])
+    lenses = []
+    for _ in range(rng.choice([2, 3, 4])):
+        lenses.append(dict(z_lens=rng.uniform(0.3, 0.7), z_source=rng.uniform(1.2, 2.2), likelihood_type="DdtGaussian",
+                           ddt_mean=rng.uniform(2500, 6000), ddt_sigma=rng.uniform(150, 400),
+                           global_los_distribution=rng.randrange(npop)))
+    model = dict(los_sampling=True, los_distributions=["GAUSSIAN"] * npop, lambda_mst_sampling=True)
+    kb = dict(kwargs_lower_cosmo={"h0": 10, "om": 0.05}, kwargs_upper_cosmo={"h0": 200, "om": 0.9},
+              kwargs_lower_lens={"lambda_mst": 0.5}, kwargs_upper_lens={"lambda_mst": 1.5},
+              kwargs_lower_los=[{"mean": -0.5, "sigma": 0.0} for _ in range(npop)],
+              kwargs_upper_los=[{"mean": 0.5, "sigma": 0.5} for _ in range(npop)])
+    h0, om, lam = rng.uniform(60, 80), rng.uniform(0.25, 0.35), rng.uniform(0.9, 1.1)
+    means = [rng.uniform(-0.2, 0.3) for _ in range(npop)]
+    with warnings.catch_warnings():
+        warnings.simplefilter("ignore")
+        cl = CosmoLikelihood(copy.deepcopy(lenses), "FLCDM", model, kb, interpolate_cosmo=False)
+        names = cl.param.param_list()
+        vals = {"h0": h0, "om": om, "lambda_mst": lam}
+        for k in range(npop):
+            vals["mean_los_%d" % k] = means[k]
+            vals["sigma_los_%d" % k] = 0.0
+        got = float(np.squeeze(cl.likelihood([vals[nm] for nm in names])))
+        cosmo = FlatLambdaCDM(H0=h0, Om0=om)
+        kwargs_los = [dict(mean=means[k], sigma=0.0) for k in range(npop)]
+        want = 0.0
+        for kw in lenses:
+            kw = dict(kw)
+            zl, zs = kw.pop("z_lens"), kw.pop("z_source")
+            lens = LensLikelihood(zl, zs, los_distributions=["GAUSSIAN"] * npop, **kw)
+            want += float(np.squeeze(lens.lens_log_likelihood(cosmo, kwargs_lens=dict(lambda_mst=lam), kwargs_kin={}, kwargs_source={},
+                                                              kwargs_los=copy.deepcopy(kwargs_los))))
+    if not close(got, want, 1e-8, atol=1e-8):
+        return ("through the sampling vector (%d line-of-sight populations with means %s, lenses assigned to %s) the sample gives %r, the sum "
+                "of the lenses alone with the populations they are assigned to gives %r"
+                % (npop, [round(m, 3) for m in means], [l["global_los_distribution"] for l in lenses], got, want))
+    return None
+
+
 def replay(ctx, data):
     import random
     inp = data["input"]
+    if inp.get("vector_path"):
+        f = vector_path_oracle(inp.get("seed", 0))
+        return bool(f), str(f)
     if inp.get("cosmo_additive"):
         f = cosmo_additive(random.Random(inp.get("seed", 0)))
         return bool(f), str(f)
